@@ -172,4 +172,32 @@ def routeNodeDown (s : St) (n : Node) : St × List Notif :=
   let r := cleanupNode s n
   (r.1, (r.2.filter (·.target.known)).map notifOf)
 
+/-! ### RouteTerminate* (node/core.go): a target terminates -/
+
+/-- what a holder receives when a remote/local target terminates: exit or down, about `target`, with `reason` -/
+structure TNotif where
+  to : Pid
+  kind : NKind
+  target : Target
+  reason : Nat
+deriving DecidableEq, Repr
+
+def tnotifOf (t : Target) (reason : Nat) (k : Key) : TNotif :=
+  ⟨k.consumer, if k.monitor then .down else .exit, t, reason⟩
+
+/-- RouteTerminatePID / ProcessID / Alias / Event (node/core.go), the part that runs on node `self`:
+    `CleanupTarget(target)`, then one `sendExitMessage` per link holder and one `RouteSendPID(MessageDown*)` per
+    monitor holder.  Holders living on `self` get the message in their mailbox; for holders on other nodes the message
+    cannot be delivered locally (sendExitMessage: unknown process; MessageDown*: not encodable) — they are served by
+    the Terminate frame below. -/
+def terminateLocal (self : Node) (s : St) (t : Target) (reason : Nat) : St × List TNotif :=
+  let r := cleanupTarget s t
+  (r.1, (r.2.filter (fun k => decide (k.consumer.node = self))).map (tnotifOf t reason))
+
+/-- the nodes that get ONE `SendTerminate*` frame each (`remote[pid.Node] = true`); the receiving node runs
+    `terminateLocal` on its own table with the reason carried by the frame -/
+def terminateFrames (self : Node) (s : St) (t : Target) : List Node :=
+  (((cleanupTarget s t).2.filter (fun k => decide (k.consumer.node ≠ self))).map (·.consumer.node)).eraseDups
+
+
 end ErgoVerif.TM
